@@ -48,3 +48,61 @@ theorem passes_iff (cfg : Cfg) (r : NormRes) : passesFilters cfg r = !specReject
     cases containsAny r.canon cfg.excludeStrings <;> cases cfg.regexExcluded.contains r.canon <;> rfl
 
 end Zeno.Model.Scope
+
+/-! ### the tests of `postprocessItem()` that complete an archived item without extracting anything (`Gen.Stages.facts.postEarlyGuards`) -/
+namespace Zeno.Model.Scope
+open Zeno Zeno.Model.Stages
+
+/-- what the tests look at -/
+structure PEnv where
+  domainsCrawl : Bool
+  depth : Int               -- GetDepthWithoutRedirections()
+  html : Bool               -- the sniffed MIME type contains "html"
+  disableAssets : Bool
+  maxHops : Nat
+
+def _root_.Zeno.PAtom.eval (e : PEnv) : PAtom → Bool
+  | .domainsCrawl => e.domainsCrawl
+  | .depthCmp op n => op.eval e.depth n
+  | .mimeHtml => e.html
+  | .disableAssets => e.disableAssets
+  | .maxHopsCmp op n => op.eval e.maxHops n
+
+def _root_.Zeno.PCond.eval (e : PEnv) : PCond → Bool
+  | .atom a => a.eval e
+  | .not c => !c.eval e
+  | .and a b => a.eval e && b.eval e
+  | .or a b => a.eval e || b.eval e
+  | .unknown _ => true
+
+def completesEarly (gs : List PCond) (e : PEnv) : Bool := gs.any (fun g => g.eval e)
+
+/-- the same decision as the model's `postAct` takes it (its second to fourth branch) -/
+def modelCompletesEarly (S : SF) (e : PEnv) : Bool :=
+  (!e.domainsCrawl && S.depthCutOp.eval e.depth (S.depthCut : Int)) ||
+  (!e.domainsCrawl && e.depth == 1 && e.html) ||
+  (e.disableAssets && !e.domainsCrawl && (S.disableAssetsRule == "always" || e.maxHops == 0))
+
+/-- `postAct` completes a non-redirect item when `modelCompletesEarly` says so (otherwise it goes on to extraction) -/
+theorem postAct_early (S : SF) (cfg : Cfg) (ex : String → Extract) (i : Zeno.Model.Item.Info) (dnr : Int) (hr : isRedirect S i.resp = false)
+    (h : modelCompletesEarly S { domainsCrawl := cfg.domainsCrawl, depth := dnr, html := i.html, disableAssets := cfg.disableAssets,
+                                 maxHops := cfg.maxHops } = true) :
+    postAct S cfg ex i dnr = .complete := by
+  unfold postAct
+  simp only [hr, Bool.false_eq_true, if_false]
+  by_cases h1 : (!cfg.domainsCrawl && S.depthCutOp.eval dnr (S.depthCut : Int)) = true
+  · simp [h1]
+  · simp only [h1, if_false]
+    by_cases h2 : (!cfg.domainsCrawl && dnr == 1 && i.html) = true
+    · simp [h2]
+    · simp only [h2, if_false]
+      by_cases h3 : (cfg.disableAssets && !cfg.domainsCrawl && (S.disableAssetsRule == "always" || cfg.maxHops == 0)) = true
+      · simp [h3]
+      · exfalso
+        simp only [modelCompletesEarly, Bool.or_eq_true] at h
+        rcases h with (h | h) | h
+        · exact h1 h
+        · exact h2 h
+        · exact h3 h
+
+end Zeno.Model.Scope
